@@ -22,23 +22,23 @@ package module
 //@ func firstPathOK
 //@   pure
 //@   ensures result == FIRSTOK(r)
-//@   props C06
+//@   props C06 C11 C12 C17 C05
 
 //@ func modPathOK
 //@   pure
 //@   ensures result == MODOK(r)
-//@   props C06
+//@   props C06 C11 C12 C17 C05
 
 //@ func importPathOK
 //@   pure
 //@   ensures result == IMPOK(r)
-//@   props C06
+//@   props C06 C11 C12 C17 C05
 
 //@ func fileNameOK
 //@   pure
 //@   requires 0 <= r
 //@   ensures result == FILEOK(r)
-//@   props C06
+//@   props C06 C11 C12 C17 C05
 
 //@ # ---------- path elements ----------
 //@ # kinds: 0 module path, 1 import path, 2 file path
@@ -80,7 +80,7 @@ package module
 //@     invariant 0 <= @pos && @pos <= len(suffix) && suffixIsDigits
 //@     invariant alldigits(suffix, 0, @pos)
 //@     decreases len(suffix) - @pos
-//@   props C06
+//@   props C06 C11 C12 C17 C05
 
 //@ # ---------- whole paths ----------
 //@ # p[a:b] is a complete slash-separated element of p
@@ -101,16 +101,27 @@ package module
 //@     invariant forall k int :: elemStart <= k && k < @pos ==> path[k] != '/'
 //@     invariant forall a int, b int {path[a:b]} :: ELEMAT(path, a, b) && b < elemStart ==> ELEMOK(path[a:b], kind)
 //@     decreases len(path) - @pos
-//@   props C06
+//@   props C06 C11 C12 C17 C05
 
 //@ func CheckImportPath
 //@   ensures (result == nil) == PATHOK(path, 1)
-//@   props C06
+//@   props C06 C11
+
+//@ # a valid path does not start with a slash (its first element would be empty)
+//@ lemma path_relative(p string, kind int)
+//@   requires PATHOK(p, kind) && 0 <= kind && kind <= 2
+//@   ensures len(p) > 0 && p[0] != '/'
+//@   hint p[0:0]
+//@   hint ELEMOK(p[0:0], kind)
+//@   trigger PATHOK(p, kind)
+//@   props C06 C12 C17 C05
 
 //@ func CheckFilePath
 //@   ensures (result == nil) == PATHOK(path, 2)
+//@   ensures [C06, C12, C17, C05] relative: result == nil ==> len(path) > 0 && path[0] != '/'
 //@   ensures result == nil || fresh(result)
-//@   props C06
+//@   uses path_relative
+//@   props C06 C11 C12 C17 C05
 
 //@ # ---------- major-version suffixes ----------
 //@ # start of the trailing run of ASCII digits and dots of p[:n]
@@ -186,7 +197,7 @@ package module
 //@   modifies err
 //@   allocates
 //@   ensures (err == nil) == (old(err) == nil)
-//@   props C06
+//@   props C06 C11
 
 //@ func CheckPath
 //@   ensures (err == nil) == MODPATHOK(path)
@@ -194,7 +205,7 @@ package module
 //@     invariant 0 <= @pos && @pos <= i
 //@     invariant forall k int :: 0 <= k && k < @pos ==> FIRSTOK(path[k])
 //@     decreases i - @pos
-//@   props C06
+//@   props C06 C11
 
 //@ # ---------- path/version agreement ----------
 //@ spec func PMNORM(pm string) string = if strings.HasPrefix(pm, ".v") && strings.HasSuffix(pm, "-unstable") then strings.TrimSuffix(pm, "-unstable") else pm
@@ -268,7 +279,7 @@ package module
 //@   ensures 0 <= U(s, i) && (i <= 0 ==> U(s, i) == 0)
 //@   induction i
 //@   trigger U(s, i)
-//@   props C11
+//@   props C11 C12 C17 C05
 
 //@ lemma U_mono(s string, i int, j int)
 //@   requires 0 <= i && i <= j
